@@ -402,6 +402,121 @@ def replay_dispatch(exe, failures):
     return {"status": "not_reproduced", "summary": f"none of {len(batch)} concrete calls disagreed natively", "attempts": tried, "concrete_instances_run": len(batch)}
 
 
+TOKEN_TEXT = {"OrOr": "||", "AndAnd": "&&", "LessThan": "<", "LessEqual": "<=", "EqualEqual": "==", "NotEqual": "!=", "GreaterEqual": ">=", "GreaterThan": ">", "In": "in",
+              "Add": "+", "Minus": "-", "Multiply": "*", "Divide": "/", "Mod": "%", "LParen": "(", "RParen": ")", "Question": "?", "Colon": ":", "Not": "!", "Dot": ".",
+              "LBracket": "[", "RBracket": "]", "Comma": ",", "LBrace": "{", "RBrace": "}", "Null": "null"}
+TOKEN_PREC = {"||": 1, "&&": 2, "<": 3, "<=": 3, "==": 3, "!=": 3, ">=": 3, ">": 3, "in": 3, "+": 4, "-": 4, "*": 5, "/": 5, "%": 5}
+
+
+def json_shape(node):
+    """grouping of a serialized syntax tree: ('leaf', name) | ('bin', l, r) | ('paren', x) | other"""
+    if isinstance(node, dict):
+        if "loc" in node and "node" in node and len(node) == 2:
+            return json_shape(node["node"])
+        if "Binary" in node:
+            b = node["Binary"]
+            return ("bin", b.get("op"), json_shape(b["lhs"]), json_shape(b["rhs"]))
+        if "Ident" in node and isinstance(node["Ident"], str):
+            return ("leaf", node["Ident"])
+        if "Parens" in node:
+            return ("paren", json_shape(node["Parens"]))
+        if "primary" in node:
+            return json_shape(node["primary"]) if not node.get("member") else ("member", json_shape(node["primary"]), len(node["member"]))
+        if len(node) == 1:
+            return json_shape(next(iter(node.values())))
+    return ("other", str(node)[:40])
+
+
+def expected_shape(tokens):
+    """precedence-climbing over the token list (identifiers, binary operators, parentheses)"""
+    pos = [0]
+
+    def primary():
+        t = tokens[pos[0]]
+        pos[0] += 1
+        if t == "(":
+            e = expr(1)
+            pos[0] += 1
+            return ("paren", e)
+        return ("leaf", t)
+
+    def expr(minp):
+        lhs = primary()
+        while pos[0] < len(tokens) and tokens[pos[0]] in TOKEN_PREC and TOKEN_PREC[tokens[pos[0]]] >= minp:
+            op = tokens[pos[0]]
+            pos[0] += 1
+            rhs = expr(TOKEN_PREC[op] + 1)
+            lhs = ("bin", lhs, rhs)
+        return lhs
+    return expr(1)
+
+
+def drop_ops(s):
+    if s[0] == "bin":
+        return ("bin", drop_ops(s[-2]), drop_ops(s[-1]))
+    if s[0] == "paren":
+        return ("paren", drop_ops(s[1]))
+    return s
+
+
+def replay_tokens(exe, failures):
+    tried, seen = [], set()
+    for f in failures:
+        sc = f.get("scenario")
+        if not sc or sc.get("kind") != "tokens":
+            continue
+        words = []
+        for t in sc["tokens"]:
+            if t[0] == "Ident":
+                words.append(t[1])
+            elif t[0] == "IntLit":
+                words.append(str(t[1]))
+            elif t[0] in TOKEN_TEXT:
+                words.append(TOKEN_TEXT[t[0]])
+            else:
+                words = None
+                break
+        if not words:
+            continue
+        src = " ".join(words)
+        if src in seen:
+            continue
+        seen.add(src)
+        names = sorted({t[1] for t in sc["tokens"] if t[0] == "Ident"})
+        out, why = run(exe, "parse", [{"source": src, "params": {n: i + 2 for i, n in enumerate(names)}}])
+        if out is None:
+            tried.append({"label": f["label"], "skipped": why})
+            continue
+        got = out[0]
+        rec = {"label": f["label"], "source": src, "native": {k: got.get(k) for k in ("error", "params", "result", "bytecode")}}
+        bad = None
+        ints = [t[1] for t in sc["tokens"] if t[0] == "IntLit"]
+        if "panic" in got:
+            bad = "the parser panicked"
+        elif ints and any(v > (1 << 63) - 1 for v in ints):
+            if "error" not in got:
+                bad = f"an integer literal above the int64 range was accepted: {got.get('result')}"
+        elif len(sc["tokens"]) == 1 and ints:
+            if got.get("result", {}).get("ok") != f"Int({ints[0]})":
+                bad = f"the literal {ints[0]} evaluated to {got.get('result')}"
+        elif "error" in got:
+            bad = f"a well-formed expression was rejected: {got.get('debug')}"
+        else:
+            want = drop_ops(expected_shape(words))
+            have = drop_ops(json_shape(got.get("ast")))
+            rec["expected_grouping"], rec["native_grouping"] = str(want), str(have)
+            if want != have:
+                bad = f"grouping {have}, the grammar gives {want}"
+            elif got.get("params") != names:
+                bad = f"parameter list {got.get('params')}, identifiers {names}"
+        tried.append(rec)
+        if bad:
+            rec["reproduced"] = True
+            return {"status": "reproduced", "summary": f"`{src}`: {bad}", "attempts": tried}
+    ran = any("native" in t for t in tried)
+    return {"status": "not_reproduced" if ran else "unavailable", "summary": "the native parser agrees on every concrete token sequence" if ran else "no scenario could be made concrete", "attempts": tried}
+
+
 def replay_value(exe, failures):
     tried = []
     for f in failures:
@@ -622,6 +737,8 @@ def main():
             r = r2 if r2["status"] == "reproduced" else r
     elif any((f.get("scenario") or {}).get("kind") == "vm" for f in fails):
         r = replay_vm(exe, fails)
+    elif any((f.get("scenario") or {}).get("kind") == "tokens" for f in fails):
+        r = replay_tokens(exe, fails)
     elif any((f.get("scenario") or {}).get("kind") == "dispatch" for f in fails):
         r = replay_dispatch(exe, fails)
     elif any((f.get("scenario") or {}).get("kind") == "details" for f in fails):
